@@ -3,6 +3,8 @@ import json, os, sys, time
 
 VERIF = os.path.dirname(os.path.dirname(os.path.abspath(__file__)))
 KNOWN = os.path.join(VERIF, "known_findings.txt")
+# evidence is written to /verif/evidence unless a selftest run redirects it (mutant runs must not clobber real evidence)
+EVID = os.environ.get("CGV_EVIDENCE_DIR") or os.path.join(VERIF, "evidence")
 
 
 def load_known():
@@ -93,12 +95,12 @@ class Check:
                 known_hit.append((key, msg))
             else:
                 new.append((key, msg, detail))
-        os.makedirs(os.path.join(VERIF, "evidence", "violations"), exist_ok=True)
+        os.makedirs(os.path.join(EVID, "violations"), exist_ok=True)
         for key, msg in known_hit:
             print("KNOWN-FINDING: property=%s %s -- %s" % (self.pid, key, msg))
         rc = 0
         for i, (key, msg, detail) in enumerate(new):
-            path = os.path.join(VERIF, "evidence", "violations", "%s-%d.json" % (self.pid, i))
+            path = os.path.join(EVID, "violations", "%s-%d.json" % (self.pid, i))
             with open(path, "w") as fh:
                 json.dump({"property": self.pid, "key": key, "message": msg, "detail": detail}, fh, indent=1, default=str)
             print("%s: %s" % (key, msg))
@@ -145,7 +147,7 @@ class Check:
             "wall_s": round(time.time() - self.t0, 2),
             "violations": len(new),
         }
-        with open(os.path.join(VERIF, "evidence", "%s.json" % self.pid), "w") as fh:
+        with open(os.path.join(EVID, "%s.json" % self.pid), "w") as fh:
             json.dump(ev, fh, indent=1, default=str)
         print("%s %s: %d obligations, %d discharged, %d known findings, %d new violations, %.1fs"
               % (self.pid, self.tier, self.obligations, self.discharged, len(known_hit), len(new), time.time() - self.t0))
